@@ -1,1 +1,2 @@
 import SeedProofs.C03
+import SeedProofs.C18
